@@ -39,3 +39,6 @@ Inductive ck_effect :=
 | EffSaveState (p : ck_path)                       (* serialization.save_state(state, p) *)
 | EffRename (src dst : ck_path) (overwrite : bool) (* tf.io.gfile.rename(src, dst, overwrite=..) *)
 | EffRemoveAllButLastKeep.                         (* for path in _get_checkpoint_paths(base)[:-keep]: remove(path) *)
+
+(* columns of the federated_data table (sqlite_federated_data.py) *)
+Inductive db_col := ColId | ColData | ColCount.
